@@ -59,13 +59,16 @@ Definition apply_ops (g : graph) (ops : list wop) : graph := fold_left apply_op 
 
 (* ---- statements (the family the harness generates; concrete Cypher in c13.rs/c24.rs) ---- *)
 
-(* second component of an UNWIND row: an integer, or a value on which the per-row expression
-   raises at run time (`toInteger(true)` -> "runtime error: InvalidArgumentValue") *)
-Inductive cell := CInt (z : Z) | CBad.
+(* rest of an UNWIND row [k, v, n]; the per-row expression is toInteger(r[1]) + 0 * size(range(1, r[2])):
+   CInt z : v = z, n = 1                      -> z
+   CBad   : v = true                          -> "runtime error: InvalidArgumentValue"
+   CLimit : v = 1, n = 1000000 (above max_collection_items)
+                                              -> "execution error: ResourceLimitExceeded(kind=CollectionItems ..)" *)
+Inductive cell := CInt (z : Z) | CBad | CLimit.
 
 Inductive stmt :=
-| SCreate (rows : list (Z * cell))         (* UNWIND rows AS r CREATE (:L {k: r[0], v: toInteger(r[1])}) *)
-| SSet (p : N) (rows : list (Z * cell))    (* UNWIND rows AS r MATCH (n:L) WHERE n.k = r[0] SET n.<p> = toInteger(r[1]) *)
+| SCreate (rows : list (Z * cell))         (* UNWIND rows AS r CREATE (:L {k: r[0], v: <expr r>}) *)
+| SSet (p : N) (rows : list (Z * cell))    (* UNWIND rows AS r MATCH (n:L) WHERE n.k = r[0] SET n.<p> = <expr r> *)
 | SDelete (detach : bool) (k : Z)          (* MATCH (n:L) WHERE n.k = k [DETACH] DELETE n *)
 | SLink (k1 k2 : Z)                        (* MATCH (a:L), (b:L) WHERE a.k = k1 AND b.k = k2 CREATE (a)-[:R]->(b) *)
 | SMerge (k : Z)                           (* MERGE (n:L {k: k}) *)
@@ -80,6 +83,7 @@ Fixpoint eval_create (next : N) (rows : list (Z * cell)) : list wop * bool :=
   match rows with
   | [] => ([], true)
   | (k, CBad) :: _ => ([WCreate next k], false)
+  | (k, CLimit) :: _ => ([WCreate next k], false)
   | (k, CInt v) :: t =>
       let '(ops, ok) := eval_create (N.succ next) t in
       (WCreate next k :: WSetProp next 0%N v :: ops, ok)
@@ -90,6 +94,7 @@ Fixpoint eval_set (p : N) (rows : list (N * cell)) : list wop * bool :=
   match rows with
   | [] => ([], true)
   | (_, CBad) :: _ => ([], false)
+  | (_, CLimit) :: _ => ([], false)
   | (id, CInt v) :: t => let '(ops, ok) := eval_set p t in (WSetProp id p v :: ops, ok)
   end.
 
